@@ -558,6 +558,9 @@ class MarkovNetwork(UndirectedGraph):
         # If false, then it is not used to create any clique potential
         is_used = {factor: False for factor in self.factors}
 
+        # State names of every variable, as given by the model's factors
+        state_names = self.states
+
         for node in clique_trees.nodes():
             clique_factors = []
             for factor in self.factors:
@@ -571,7 +574,10 @@ class MarkovNetwork(UndirectedGraph):
             # To compute clique potential, initially set it as unity factor
             var_card = [self.get_cardinality()[x] for x in node]
             clique_potential = DiscreteFactor(
-                node, var_card, np.ones(np.prod(var_card))
+                node,
+                var_card,
+                np.ones(np.prod(var_card)),
+                state_names={var: state_names[var] for var in node if var in state_names},
             )
             # multiply it with the factors associated with the variables present
             # in the clique (or node)
